@@ -1,6 +1,7 @@
 package checks
 
 import (
+	"sort"
 	"fmt"
 
 	"github.com/formancehq/ledger/verifharness/core"
@@ -88,6 +89,32 @@ func runC13Sequential(r *core.Run) {
 			if e.C.Snapshot("l1").Digest() != b2 {
 				c.Violation("C13/sequential:same-key-different-input-had-an-effect", detail)
 			}
+			// same key, another KIND of request (the stored log holds another payload type)
+			var cross sim.Op
+			for tries := 0; tries < 20; tries++ {
+				cross = sim.GenOp(rng, st)
+				if cross.Kind != op.Kind {
+					break
+				}
+			}
+			if cross.Kind != op.Kind {
+				cross.IK, cross.DryRun = "the-key", false
+				b3 := e.C.Snapshot("l1").Digest()
+				fourth := m.Step(cross)
+				r.Count("same_key_other_kind", 1)
+				r.Seen("same_key_other_kind_pairs", op.Kind+"->"+cross.Kind+":"+fourth.Class)
+				// kinds that store the same payload type (save_tx_meta/save_acc_meta, del_*) legitimately compare inputs only
+				if fourth.Class != sim.CIKMismatch {
+					detail["fourth"], detail["fourth_kind"] = fourth.Class, cross.Kind
+					if fourth.Err != nil {
+						detail["fourth_error"] = fourth.Err.Error()
+					}
+					c.Violation(fmt.Sprintf("C13/sequential:same-key-other-kind-answered-%s:%s->%s", fourth.Class, op.Kind, cross.Kind), detail)
+				}
+				if e.C.Snapshot("l1").Digest() != b3 {
+					c.Violation("C13/sequential:same-key-other-kind-had-an-effect", detail)
+				}
+			}
 		} else {
 			r.Count("replays_of_failed_key", 1)
 			// a failed write did not consume the key: the replay is judged on its own
@@ -144,6 +171,48 @@ func runC14Sequential(r *core.Run) {
 		resp2 := e.Do("POST", "/v2/l1/transactions", []byte(`{"postings":[{"source":"world","destination":"a","asset":"USD","amount":1}],"reference":"r0"}`), nil)
 		if resp2.Status != 409 {
 			c.Violation(fmt.Sprintf("C14/sequential:http-duplicate-reference-status-%d", resp2.Status), map[string]any{"first": resp.Status, "body": string(resp2.Body)})
+		}
+		// references that arrived through an import: the copy is still "initializing", so its first
+		// native writes take the state tracker's slow path; a duplicate must still be a conflict (409)
+		exp := e.Do("POST", "/v2/l1/logs/export", nil, nil)
+		_ = e.CreateLedger("copy", "b2", nil)
+		if imp := e.Do("POST", "/v2/copy/logs/import", exp.Body, nil); imp.Status == 204 {
+			r.Count("imported_copies", 1)
+			refs := make([]string, 0, len(used["l1"])+1)
+			for ref := range used["l1"] {
+				refs = append(refs, ref)
+			}
+			sort.Strings(refs)
+			refs = append(refs, "r0") // committed over HTTP above
+			ref := refs[rng.Intn(len(refs))]
+			before := e.C.Snapshot("copy").Digest()
+			via := []string{"controller", "http"}[rng.Intn(2)]
+			detail := map[string]any{"reference": ref, "via": via, "steps": shape}
+			if via == "controller" {
+				out := e.Apply("copy", sim.Op{Kind: "postings", Postings: []sim.P{{Source: "world", Destination: "a", Asset: "USD", Amount: "1"}}, Reference: ref})
+				detail["outcome"] = out.Class
+				if out.Class != sim.CRefConflict {
+					c.Violation("C14/sequential:duplicate-of-an-imported-reference-answered-"+out.Class+":first-write-after-import", detail)
+				}
+			} else {
+				resp := e.Do("POST", "/v2/copy/transactions", []byte(`{"postings":[{"source":"world","destination":"a","asset":"USD","amount":1}],"reference":"`+ref+`"}`), nil)
+				detail["status"], detail["body"] = resp.Status, string(resp.Body)
+				if resp.Status != 409 {
+					c.Violation(fmt.Sprintf("C14/sequential:http-duplicate-of-an-imported-reference-status-%d:first-write-after-import", resp.Status), detail)
+				}
+			}
+			r.Count("duplicate_of_imported_reference_attempts:"+via, 1)
+			if e.C.Snapshot("copy").Digest() != before {
+				c.Violation("C14/sequential:refused-duplicate-had-an-effect:first-write-after-import", detail)
+			}
+			// and a fresh reference is accepted, then refused the second time
+			o1 := e.Apply("copy", sim.Op{Kind: "postings", Postings: []sim.P{{Source: "world", Destination: "a", Asset: "USD", Amount: "1"}}, Reference: "fresh-after-import"})
+			o2 := e.Apply("copy", sim.Op{Kind: "postings", Postings: []sim.P{{Source: "world", Destination: "a", Asset: "USD", Amount: "1"}}, Reference: "fresh-after-import"})
+			if !o1.OK() || o2.Class != sim.CRefConflict {
+				c.Violation("C14/sequential:fresh-reference-after-import:"+o1.Class+"-then-"+o2.Class, detail)
+			}
+		} else {
+			r.Count("import_of_export_refused", 1)
 		}
 		r.Eval(fmt.Sprint(shape), true)
 	})
